@@ -21,6 +21,7 @@ Inputs:
 Notes:
     if a mystic.math.Distribution is provided, use it to inject randomness
     """
+    if not all(len(i) for i in q): return [] # empty axis, empty product
     w = [[] for i in range(len(q[-1]))]
     for j in range(len(q)-1,-1,-1):
       for k in range(len(q[j])):
